@@ -283,6 +283,38 @@ func runC08(c *kit.Ctx) {
 			}
 			c.Check(good, getOv, "overlap-candidate", call.Pos(), "a region is reported as overlap only on the isRegionOverlap edge", "getOverlaps reports a region without testing isRegionOverlap")
 		}
+
+		// the search starts at the new region's own fully qualified table and start key
+		for _, call := range kit.Calls(getOv, kit.M("", "", "createRegionSearchKey")) {
+			a := call.Common().Args
+			t, ok1 := kit.Strip(a[0]).(*ssa.Call)
+			k, ok2 := kit.Strip(a[1]).(*ssa.Call)
+			good := ok1 && ok2 && kit.CalleeName(t) == kit.M("", "", "fullyQualifiedTable") && t.Call.Args[0] == ssa.Value(getOv.Params[1]) &&
+				kit.CalleeName(k) == hrpcRI+"StartKey" && k.Call.Value == ssa.Value(getOv.Params[1])
+			c.Check(good, getOv, "overlap-search-key", call.Pos(), "the overlap search key is built from fullyQualifiedTable(reg) and reg.StartKey()", "the overlap search does not start at the new region's fully qualified table and start key: for a namespaced table the search lands among other tables and overlapping regions are not evicted")
+		}
+		// a predecessor that does not overlap must not end the search: its successors may
+		ovCalls := []ssa.CallInstruction{}
+		for _, call := range kit.Calls(getOv, kit.M("", "", "isRegionOverlap")) {
+			ovCalls = append(ovCalls, call)
+		}
+		cont := false
+		for _, call := range ovCalls {
+			for _, r := range kit.Referrers(call.Value()) {
+				iff, ok := r.(*ssa.If)
+				if !ok {
+					continue
+				}
+				e := kit.PathFromBlock(kit.SuccOnFalse(iff), kit.PathQuery{Target: func(x ssa.Instruction) bool {
+					cc, ok := x.(*ssa.Call)
+					return ok && kit.StaticCallee(cc) == iro && x != call.(ssa.Instruction)
+				}})
+				if e != nil {
+					cont = true
+				}
+			}
+		}
+		c.Check(cont, getOv, "predecessor-not-terminal", getOv.Pos(), "a first candidate (the predecessor) that does not overlap does not end the search", "getOverlaps stops at the first region that does not overlap, even when that is the predecessor of the search key: regions after it that do overlap stay in the cache next to the new region")
 	}
 
 	// ---- R5 ---------------------------------------------------------------
